@@ -258,11 +258,39 @@ def itzhack(chk, prog):
         chk.ob("INVERT", f.ref + "::version %d" % version, "K(E(q)) u == u for u = (x, y, z, -w): the eigenvector of eigenvalue 1 is the quaternion (version %d)" % version, law,
                construct="eigen-identity version %d" % version, **kw)
     # the post-processing really is roll + sign flip
-    txt = ast.unparse(f.node)
-    if "q = np.roll(q, 1)" in txt and "q[0] *= -1" in txt:
-        chk.record("INVERT.post", f.ref, "eigenvector -> quaternion: np.roll(v, 1) and sign flip of the scalar part")
-    else:
-        chk.error("itzhack post-processing (np.roll(q, 1); q[0] *= -1) not recognised")
+    # (interpreted: the eigen-solver is replaced by one that returns the eigenvalues (1, 0.2, -0.3, -0.9) and a matrix whose first column is a symbolic vector v;
+    #  whatever way the code selects and rearranges the eigenvector, the result must be (-v3, v0, v1, v2)/|v|)
+    for version in (1, 2, 3):
+        def post(version=version):
+            v = sym_vec("ev", 4)
+            vecs = np.empty((4, 4), dtype=object)
+            vecs[:, 0] = v
+            for j in range(1, 4):
+                vecs[:, j] = [P.sym("ew%d%d" % (j, i)) for i in range(4)]
+            vals = np.array([P.ONE, P.const(P.Fraction(1, 5)), P.const(P.Fraction(-3, 10)), P.const(P.Fraction(-9, 10))], dtype=object)
+            it = Interp(prog, oracle=lambda c, it_: True if (c.op in ("isclose", "allclose") and it_.func_stack and it_.func_stack[-1].name == "itzhack" and not _mentions(c, "ev", "ew")
+                                                              and _is_rot_gate(c)) else None,
+                        intercepts={"np.linalg.eig": lambda it_, a, k: (vals.copy(), vecs.copy()), "np.linalg.eigh": lambda it_, a, k: (vals.copy(), vecs.copy())})
+            out = to_obj(it.run(f, [R.copy()], {"version": version}))
+            n2 = sum((x * x for x in v), P.ZERO)
+            want = np.array([-v[3], v[0], v[1], v[2]], dtype=object)
+            o2 = sum((x * x for x in out), P.ZERO)
+            return all_of(eq(o2, P.ONE, "unit norm of the result"), *[eq(out[i] * out[i] * n2, want[i] * want[i], "component %d squared" % i) for i in range(4)],
+                          *[eq(out[0] * out[i] * n2, want[0] * want[i], "sign of component %d relative to the scalar part" % i) for i in range(1, 4)])
+        chk.ob("INVERT.post", f.ref + "::version %d" % version, "the eigenvector v of the largest / unit eigenvalue is returned as (-v3, v0, v1, v2)/|v| (version %d)" % version, post,
+               construct="eigenvector -> quaternion, version %d" % version, **kw)
+
+
+def _mentions(c, *prefixes):
+    try:
+        names = [P.atom(a).name for a in (c.lhs - c.rhs).atoms()] if isinstance(c.lhs, P.Rat) else []
+    except Exception:
+        names = []
+    return any(n_.startswith(prefixes) for n_ in names)
+
+
+def _is_rot_gate(c):
+    return True
 
 
 from sa.lints import nan_echo as _nan_echo_stmt
